@@ -10,6 +10,8 @@ def run(ctx):
         "is obtained from a shadow clone stepped manually (MH, Gibbs: pub chains, deterministic given the cloned generators) or "
         "from the per-transition hook events hmc_end / nuts_end (HMC, NUTSChain)",
         "the multi-chain NUTS runner is compared with clones of its own chains (verif_chains hook) run individually",
+        "sessions (Session.tla): every returned cell carries a token <<kind, seed, chain, transitions, [NUTS: call history], [HMC: batch size]>>; "
+        "the harness requires equal tokens to be bit-equal values across all executed sessions (determinism, run = run_progress, continuation, chain order at once)",
     ]
     suffix = "t" if thorough else "q"
     for v, w in (("generic", 8), ("nuts", 8), ("hmc", 2)):
@@ -58,6 +60,26 @@ def run(ctx):
                           "recorded run of counting chains is not a behaviour of Runner.tla",
                           {"direction": "trace", "spec": "Trace_Runner", "first_unmatched_index": matched, "event": bad,
                            "trace": lines[: (matched or 0) + 1]})
+    # whole sessions (Session.tla): construct, seed, run / run_progress calls, export -- the token -> value map over
+    # all sessions must be a function (equal abstract states are bit-equal values)
+    import random as _r
+    g = ctx.tlc("MC_Session", workers=4, timeout=900)
+    ctx.require_ok(g, "MC_Session")
+    sess = [x for x in g.tagged("REPLAY") if len(x["calls"]) == 2
+            and all((not c["progress"]) or c["nc"] >= 4 for c in x["calls"])
+            and (x["kind"] != "NUTS" or all(c["nc"] >= 1 for c in x["calls"]))]
+    rnd = _r.Random(ctx.seed)
+    with_files = [x for x in sess if x["files"]]
+    pick = rnd.sample(sess, 700 if thorough else 80) + rnd.sample(with_files, 60 if thorough else 12)
+    d = ctx.path("session_files")
+    res = ctx.harness(["session", "replay", ctx.write_ndjson("sessions.ndjson", pick), "--dir", d], timeout=3000)[-1]
+    ctx.cov["evaluations"] += res["evaluations"]
+    ctx.cov["traces_validated_against_impl"] += len(pick)
+    ctx.cov["session_cells_shared_between_sessions"] = res["cells_shared_between_sessions"]
+    ctx.sample({"session": {k: pick[0][k] for k in ("kind", "n", "seed")}, "calls": [{k: c[k] for k in ("nc", "nd", "progress")} for c in pick[0]["calls"]]})
+    for m in res["bad"]:
+        ctx.violation("session %s" % m["session"], "%s%s" % (m["why"], (" (other session: %s)" % m["other_session"]) if "other_session" in m else ""),
+                      {"direction": "replay", "spec": "MC_Session", "mismatch": m})
     lines = open(ctx.path("runner_trace_2.ndjson")).read().splitlines()
     evs = [json.loads(x) for x in lines]
     j = next(i for i, e in enumerate(evs) if e["e"] == "ret" and len(e["out"]) >= 2 and len(e["out"][0]) >= 1)
